@@ -747,6 +747,7 @@ func c13fileResume(c *core.Ctx, api c13api, stream string, ds []docSpan, wantFp 
 		c.Violate("c13-file-overread", fmt.Sprintf("%s: after document #%d the *os.File offset %d is outside [%d, %d]: bytes of the following documents were consumed", api.name, k, off, ds[k].end, ds[k+1].start), det)
 		return
 	}
+	c13pipeAndBuffer(c, api, stream, ds, wantFp)
 	// resume on the same file with the plain reader of the same codec
 	for i := k + 1; i <= len(ds); i++ {
 		var m interface{}
@@ -770,6 +771,66 @@ func c13fileResume(c *core.Ctx, api c13api, stream string, ds []docSpan, wantFp 
 			det["err"], det["resumed_document"] = fmt.Sprint(e), i
 			c.Violate("c13-file-resume", api.name+": the caller resuming on the same *os.File does not get the following documents (they were read ahead and lost)", det)
 			return
+		}
+	}
+}
+
+// c13pipeAndBuffer: (a) the stream through an os.Pipe - an *os.File that cannot seek: whatever a reader reads ahead is
+// gone -, one loop call per document and a final io.EOF; (b) the Raw readers on a *bytes.Buffer: the caller appends to the
+// Raw value it was given (its own slice, by contract) before asking for the next document.
+func c13pipeAndBuffer(c *core.Ctx, api c13api, stream string, ds []docSpan, wantFp []string) {
+	if api.handler || api.byteSrc != "" || strings.HasPrefix(api.name, "x2j-wrapper.XmlMsgsFromReader") {
+		return
+	}
+	if pr, pw, err := os.Pipe(); err == nil {
+		go func() {
+			pw.Write([]byte(stream))
+			pw.Close()
+		}()
+		c.Eval()
+		c.Count("pipe-source-checks")
+		det := core.D{"api": api.name, "stream": stream, "source": "os.Pipe (an *os.File that cannot seek)"}
+		for i := 0; i <= len(ds); i++ {
+			r1 := loopOnce(api, pr)
+			if i == len(ds) {
+				if r1.finalErr != io.EOF {
+					det["err"] = fmt.Sprint(r1.finalErr)
+					c.Violate("c13-pipe", api.name+": reading from a pipe did not end with io.EOF after the last document", det)
+				}
+				break
+			}
+			if r1.finalErr != nil || len(r1.deliveries) != 1 || r1.deliveries[0].fp != wantFp[i] {
+				det["document"], det["err"] = i, fmt.Sprint(r1.finalErr)
+				c.Violate("c13-pipe", api.name+": a document read from a pipe is missing or differs from decoding its bytes (read-ahead lost?)", det)
+				break
+			}
+		}
+		pr.Close()
+	}
+	if strings.HasSuffix(api.name, "Raw") && len(ds) >= 2 {
+		buf := bytes.NewBufferString(stream)
+		c.Eval()
+		c.Count("raw-appended-by-caller-checks")
+		det := core.D{"api": api.name, "stream": stream, "source": "*bytes.Buffer; the caller appends to each Raw value before the next call"}
+		for i := 0; i < len(ds); i++ {
+			var m interface{}
+			var raw []byte
+			var err error
+			switch api.name {
+			case "NewMapXmlReaderRaw":
+				m, raw, err = mxj.NewMapXmlReaderRaw(buf)
+			case "NewMapXmlSeqReaderRaw":
+				m, raw, err = mxj.NewMapXmlSeqReaderRaw(buf)
+			default:
+				m, raw, err = mxj.NewMapJsonReaderRaw(buf)
+			}
+			if err != nil || jv.Fp(m) != wantFp[i] {
+				det["document"], det["err"] = i, fmt.Sprint(err)
+				c.Violate("c13-raw-aliases-source", api.name+": after the caller appended to the previous Raw value the next document is wrong (Raw shares the source buffer's storage)", det)
+				return
+			}
+			raw = append(raw, "<<<<{{{{\"\"\"\"]]>>&&&&"...)
+			_ = raw
 		}
 	}
 }
